@@ -7,7 +7,7 @@ import ast
 from ..cfg import build_cfg, calls_in, node_calls
 from ..core import Ctx, property_info, rule
 from ..model import AnalysisError, FuncInfo, walk_no_nested
-from ..q import A, MUTATORS, asrc, is_self_attr, kwarg, root_name, stores, unparse
+from ..q import A, MUTATORS, asrc, call_name_of, return_values, is_self_attr, kwarg, root_name, stores, unparse
 
 PAR = "xsdata.formats.dataclass.parsers"
 
@@ -137,8 +137,11 @@ def skip_nodes_bind_nothing(ctx: Ctx) -> None:
     ok = bool(rets) and all(unparse(r.value) in ("self", "SkipNode()") for r in rets)
     ctx.ob("SkipNode.child returns a skip node (the whole subtree is swallowed)", ok, at=c, construct="skip child", msg="a descendant of a skipped element is bound")
     end = ctx.repo.func(f"{PAR}.bases:NodeParser.end")
-    a = asrc(end)
-    ctx.ob("NodeParser.end only pops the node and returns its bind() result", A("_ = _.pop();return _.bind(_, _, _, _)") in a and "append" not in a, at=end, construct="end effects",
+    rv = return_values(end.node)
+    cl = calls_in(end.node)
+    ok = bool(rv) and all(isinstance(v, ast.Call) and call_name_of(v) == "bind" and len(v.args) == 4 for v in rv) and any(unparse(c.func) == "queue.pop" for c in cl) \
+        and not any(isinstance(c.func, ast.Attribute) and c.func.attr in MUTATORS and root_name(c.func.value) == "objects" for c in cl)
+    ctx.ob("NodeParser.end only pops the node and returns its bind() result", ok, at=end, construct="end effects",
            msg="end() touches the objects list itself")
     # bind_objects of the parent: unassigned objects are logged, never raised
     bo = ctx.repo.func(f"{PAR}.nodes.element:ElementNode.bind_objects")
